@@ -19,13 +19,13 @@ def rows_lexicon(case):
     m = qa.REGEX[rid].fullmatch(text)
     if m is None:
         # the pattern of the tree does not accept this form of the frozen lexicon at all
-        return [{"rule": rn, "ts": qa.ts_json(ts), "a": [{"k": "R", "id": rid, "n1": n, "n2": -1, "n3": -1, "s1": u}],
-                 "a2": [{"k": "R", "id": rid, "n1": n, "n2": -1, "n3": -1, "s1": u}], "res": {"k": "F"}, "alias": 0}]
+        return [{"rule": rn, "ts": qa.ts_json(ts), "a": [{"k": "R", "id": qa.mid(rid), "n1": n, "n2": -1, "n3": -1, "s1": u}],
+                 "a2": [{"k": "R", "id": qa.mid(rid), "n1": n, "n2": -1, "n3": -1, "s1": u}], "res": {"k": "F"}, "alias": 0}]
     tok = qa.T.RegexMatch(rid, m)
     row = common.call_rule(rn, ts, [tok])
     # the token's meaning comes from the LEXICON (n, u), not from reading the match
     for key in ("a", "a2"):
-        row[key] = [{"k": "R", "id": rid, "n1": n, "n2": -1, "n3": -1, "s1": u}]
+        row[key] = [{"k": "R", "id": qa.mid(rid), "n1": n, "n2": -1, "n3": -1, "s1": u}]
     return [row]
 
 
